@@ -179,7 +179,10 @@ def run(ctx):
     ecl = lib.local_scope(F, enc)
     be = [c for b in ecl for c in b.calls if re.search(r"num::<impl u16>::to_be_bytes$", c.fn or "")]
     le = [c for b in ecl for c in b.calls if re.search(r"to_le_bytes$|to_ne_bytes$", c.fn or "")]
-    bom = [const_int(op_const(s["rv"]["o"])) for bi, si, s in enc.stmts() if s.get("rv") and s["rv"]["k"] == "use" and op_const(s["rv"]["o"]) is not None and const_int(op_const(s["rv"]["o"])) == 0xFEFF]
+    # the mark: a u16 of value FEFF, written as a literal or folded from a constant (`u16::from_be_bytes(BOM)`)
+    import symeval
+    ev = symeval.Eval(F, enc, lambda b, k, x: None)
+    bom = [l for l in range(len(enc.locals)) if enc.lty(l) == "u16" and len(enc.defs.get(l, [])) == 1 and ev.val({"c": {"l": l, "p": []}}) == 0xFEFF]
     u16s = [c for c in enc.calls if re.search(r"str::<impl str>::encode_utf16$", c.fn or "")]
     ctx.ob(R, "encoder-utf16be", len(be) >= 2 and not le and bom and len(u16s) == 1, "encode_utf16_be writes FEFF and every UTF-16 unit big-endian", enc.where(),
            what="encode_utf16_be does not write the FE FF mark followed by big-endian UTF-16 units (surrogate pairs via encode_utf16)")
@@ -191,13 +194,27 @@ def run(ctx):
     ctx.ob(R, "decoder-bom-dispatch", sw == [b"\xfe\xff", b"\xef\xbb\xbf"] and bool(fb) and not fl, "decode_text_string tests FE FF then EF BB BF and assembles big-endian units", dec.where(),
            what="decode_text_string's mark tests / byte order no longer mirror the encoder (marks tested: %s)" % sw)
     sniff = [c for b in dcl for c in b.calls if re.search(r"encoding_rs::Encoding::decode$|decode_with_bom_removal$", c.fn or "")]
-    strip = [c for c in dec.calls if (c.fn or "").endswith("ops::Index::index") and dec.oname(c.args[1], 3) == "RangeFrom::RangeFrom{2}"]
+    evd = symeval.Eval(F, dec, lambda b, k, x: None)
+
+    def from_two(c):
+        d = dec.def_rv(c.args[1])
+        if d and d[2] == "rv" and d[3]["k"] == "agg" and d[3]["kind"].get("adt", "").endswith("RangeFrom") and len(d[3]["ops"]) == 1:
+            return evd.val(d[3]["ops"][0]) == 2
+        return dec.oname(c.args[1], 3) == "RangeFrom::RangeFrom{2}"
+    strip = [c for c in dec.calls if (c.fn or "").endswith("ops::Index::index") and from_two(c)]
     ctx.ob(R, "decoder-no-second-bom-sniff", not sniff and len(strip) == 1, "after the mark is cut off the remainder is decoded as plain UTF-16BE (no BOM sniffing)", dec.where(),
            what="decode_text_string decodes the bytes after the mark with a BOM-sniffing decoder (%s): a text whose first character is U+FEFF/U+FFFE changes" % [c.fn for c in sniff])
     e8 = F.fn("encodings::encode_utf8")
     vc = [c for c in e8.calls if (c.fn or "").endswith("box_assume_init_into_vec_unsafe")]
     lits = lib.vec_literal(e8, {"c": vc[0].dest}) if vc else None
     vals = [const_int(op_const(o)) for o in lits] if lits else None
+    if vals is None:
+        # `MARK.to_vec()` / `Vec::from(MARK)` of a constant
+        for c in e8.calls:
+            if (c.fn or "").rsplit("::", 1)[-1] in ("to_vec", "from", "into_vec", "to_owned") and c.args:
+                kb = lib._const_bytes_through(e8, c.args[0])
+                if kb is not None and vals is None:
+                    vals = list(kb)
     ctx.ob(R, "encoder-utf8-mark", vals == [0xEF, 0xBB, 0xBF], "encode_utf8 starts with EF BB BF", e8.where(), what="encode_utf8 no longer starts with the UTF-8 mark EF BB BF")
     # get_font_encoding reaches exactly the predefined tables by name
     gfe = F.fn("Dictionary::get_font_encoding")
